@@ -169,6 +169,11 @@ def gen_cases(rng, tier, scale):
            ('{{#each (lookup o "k")}}{{dump zz}}{{/each}}', 'dump(x7a7a:m:-:n;;bti;-)dump(x7a7a:m:-:n;;bti;-)'),
            ('{{#each o.k as |e i|}}{{dump i.nokey}}{{/each}}', 'dump(x692e6e6f6b6579:m:-:n;;bti;-)dump(x692e6e6f6b6579:m:-:n;;bti;-)'),
            ('{{#each [{"a":1}] as |e|}}{{dump e.zz ../zz}}{{/each}}', None)]
+    OK_ = 'dump(%s:v:[x6f,x6b]:%s;;bti;-)' % (x('o.k'), jtok([1, 2]))
+    OK2 = 'dump(%s:v:[x6f,x6b]:%s;;bti;-)' % (x('../o.k'), jtok([1, 2]))
+    OK3 = 'dump(%s:v:[x6f,x6b]:%s;;bti;-)' % (x('@root.o.k'), jtok([1, 2]))
+    DER += [('{{#each o.k as |k|}}{{dump ../o.k}}{{/each}}', OK2 * 2), ('{{#with o as |k|}}{{dump @root.o.k}}{{/with}}', OK3),
+            ('{{#each o.k as |k i|}}{{dump ../o.k}}{{/each}}', OK2 * 2)]
     for i, (tpl, exp) in enumerate(DER):
         cases.append(rcase(f'der{i}', tpl, DATA, pre=['probes', 'esc 1'], partials={'p': '{{dump zz k=zz.y}}'}, entry=0, kind='exact', exp=exp, tags=['missing-in-derived-scope']))
     # a helper that WRITES its result hands a subexpression caller a string, whatever the text looks like
